@@ -61,6 +61,16 @@ class Opaque:
         return f"Opaque({self.what})"
 
 
+class MaskSel:
+    """`base[mask]` with a boolean mask whose entries are not all known: the selected elements in order.  Only what
+    does not depend on WHERE the selected elements end up is supported (sum, number of elements); any other use is
+    Unsupported (the value has a type no other model accepts)."""
+
+    def __init__(self, base, mask):
+        self.base = base
+        self.mask = mask
+
+
 class Arr:
     """1-D numpy array or (symbolic-length) Python list.
 
